@@ -9,6 +9,7 @@ PROPS = {
         "runs": [
             {"engine": "reply", "args": ["-mode", "seq"], "n_quick": 1200, "n_thorough": 60000, "netns": True},
             {"engine": "reply", "args": ["-mode", "conc"], "n_quick": 1500, "n_thorough": 150000, "netns": True},
+            {"engine": "reply", "args": ["-mode", "tcpstorm"], "n_quick": 25, "n_thorough": 1500, "netns": True},
         ],
         "trivial_tags": [r"/small"],
         "rule": "random well-formed/damaged queries x upstream outcomes (up/err/empty/err-with-bytes/hang) x UDP/TCP, one at a time "
